@@ -14,6 +14,7 @@ import Umya.Lemmas.Annot
 import Umya.Lemmas.AnnotNames
 import Umya.Thm.C17
 import Umya.Lemmas.TablesGen
+import Umya.Thm.C06View
 namespace Umya.Thm.C06
 open Umya.Annot Umya.XmlEsc Umya.Coord
 
